@@ -135,4 +135,18 @@ var pinned = []Case{
 		{K: "call", M: "slice", Args: []Arg{{V: "4"}, {CB: &m.CB{Fam: "vo", Ret: "5", Mut: "splice", Arg: 4}}}}}},
 	{Recv: RecvSpec{Kind: "dense", Class: "dense", Elems: lits("1", "2", "3", "4", "5")}, Ops: []Op{
 		{K: "call", M: "fill", Args: []Arg{{V: "7"}, {V: "0"}, {CB: &m.CB{Fam: "vo", Ret: "5", Mut: "splice", Arg: 4}}}}}},
+	// 30: objectGoSlice.grow within spare capacity must clear the newly exposed slots (host slice = sub-slice whose backing
+	// array holds sentinels past len(); seeded change C07-goslice-grow-stale-cap)
+	{Recv: RecvSpec{Kind: "goslice", Class: "goslice", Elems: lits("'a'", "'b'")}, Ops: []Op{
+		{K: "len", V: &Arg{V: "4"}, Mode: "sloppy"},
+		{K: "len", V: &Arg{V: "2"}, Mode: "sloppy"},
+		{K: "set", I: 4, V: &Arg{V: "'x'"}, Mode: "sloppy"},
+		{K: "call", M: "join", Args: []Arg{{V: "'|'"}}}}},
+	{Recv: RecvSpec{Kind: "gosliceptr", Class: "goslice", Elems: lits("1")}, Ops: []Op{
+		{K: "call", M: "unshift", Args: []Arg{{V: "0"}}},
+		{K: "call", M: "push", Args: []Arg{{V: "2"}}},
+		{K: "set", I: 5, V: &Arg{V: "7"}, Mode: "strict"}}},
+	{Recv: RecvSpec{Kind: "reflect", Class: "reflect", Elems: lits("1", "2")}, Ops: []Op{
+		{K: "len", V: &Arg{V: "5"}, Mode: "sloppy"},
+		{K: "set", I: 6, V: &Arg{V: "3"}, Mode: "sloppy"}}},
 }
